@@ -2632,6 +2632,9 @@ class Coalescent(AbstractCoalescent, Serializable):
             the order of rewards.
         :return: The kth moment
         """
+        if rewards is None:
+            rewards = (TreeHeightReward(),) * int(k)
+
         return self._get_dist(k, rewards).moment(
             k=k,
             rewards=rewards,
@@ -2689,6 +2692,9 @@ class Coalescent(AbstractCoalescent, Serializable):
             the order of rewards.
         :return: Accumulation of moments.
         """
+        if rewards is None:
+            rewards = (TreeHeightReward(),) * int(k)
+
         return self._get_dist(k, rewards).accumulate(
             k=k,
             end_times=end_times,
@@ -2730,6 +2736,9 @@ class Coalescent(AbstractCoalescent, Serializable):
         :param title: Title of the plot.
         :return: Axes.
         """
+        if rewards is None:
+            rewards = (TreeHeightReward(),) * int(k)
+
         self._get_dist(k, rewards).plot_accumulation(
             k=k,
             end_times=end_times,
